@@ -117,7 +117,7 @@ PROPS = {
     },
     "C15": {
         "file": "C15.v",
-        "streams": [S("trie", 300, 5000), S("index", 40, 400, no_model=True)],
+        "streams": [S("trie", 300, 5000), S("index", 40, 400)],
         "claim": "Theorems over HttpTrie: for every raw operation stream the path index equals the abstract map normalized-path -> key -> identity, exact and wildcard matching are segment-wise, equivalent spellings coincide, removal by identity ignores stale notifications, pruning leaves no empty branch and never loses a live branch. Tied to /repo by T-trace on the real patternIndex (exported wrapper). The clause about index/cache agreement under interleavings of stores, invalidations and late notifications is decided by deterministic interleaving probes through the split-store hooks (known finding F5: overlapping stores of one key).",
         "note": "Trusted: Coq kernel, extraction, driver, harness, httpcache hooks. The index-vs-cache interleaving clause is partial (probes + known finding), not a theorem yet.",
         "assumptions": ["keys and identities are integers in the model; Go map iteration order is abstracted by comparing sorted answers"],
